@@ -35,6 +35,10 @@ def run(ctx):
                   'row, so an updated definition is never served from the '
                   'cache', 'AGREE')
     spec_cache_keys(ctx, r8)
+    from mstatic.rules import completion
+    r9 = ctx.rule('R9', 'the command comparator orders the commands that '
+                  'lock a join by unique key (truth table)', 'DT')
+    completion.comparator_table(ctx, r9)
 
 
 def spec_cache_keys(ctx, rule):
